@@ -430,6 +430,10 @@ var c08CustomFields = []c08fsSpec{
 	{Group: "example.com", Kind: "StatefulSet", Path: "spec/template/metadata/labels", Create: true},
 	{Group: "batch", Version: "v2", Kind: "Job", Path: "spec/template/metadata/labels", Create: true},
 	{Group: "example.com", Kind: "StatefulSet", Path: "spec/selector/matchLabels", Create: true},
+	// creating twins of non-creating default rows: a null value that an earlier non-creating row passed must come out
+	// with the labels of the creating directive only (regression for R-setentry-null-scalar, corpus builds[4])
+	{Kind: "NetworkPolicy", Path: "spec/podSelector/matchLabels", Create: true},
+	{Kind: "Deployment", Path: "spec/selector/matchLabels", Create: true},
 }
 
 func genDirs(rng *Rng, allowFields bool) c08Dirs {
@@ -1250,18 +1254,10 @@ func genFilterCase(rng *Rng) c08FilterCase {
 			f.Kind, f.Group, f.Version = kind, "", ""
 			f.Create = rng.Bool()
 		}
-		// Domain restriction: rows whose paths are equal or prefix-related carry the same create flag. A
-		// create=false row that ends at a null scalar appends the entry to the Content of that scalar
-		// (invisible); a later create=true row for the same path - or one passing through it - retags the node
-		// as a mapping and the hidden entries surface. Hidden content of a scalar is not representable in the
-		// model's node type (Yaml/Node.v); the default tables never contain such a pair of rows for one object
-		// and FsSlice.MergeOne rejects the equal-path case ("conflicting fieldspecs"). The theorems exclude it
-		// through rows_ok (no matching row may extend the read path) and uniform_create.
-		for _, g := range c.Fss {
-			if g.Path == f.Path || strings.HasPrefix(f.Path, g.Path+"/") || strings.HasPrefix(g.Path, f.Path+"/") {
-				f.Create = g.Create
-			}
-		}
+		// No restriction on the create flags of equal / prefix-related paths any more: since the repair
+		// R-setentry-null-scalar a non-creating row that ends at a null value leaves it alone (it used to hide the
+		// entry in the Content of the null scalar, surfacing under a later creating row - not representable in the
+		// model's node type; former domain restriction "uniform create flag", former hypothesis uniform_create).
 		c.Fss = append(c.Fss, f)
 	}
 	return c
